@@ -181,10 +181,30 @@ fn parse_op(s: &Sexp) -> Option<Op> {
 /// `on_batch` invocation (i.e. between the receiver's unlock — or the end of the retry wait — and the call),
 /// `waits[j]` at the start of the j-th `wait` invocation (between the unlock / the outcome and the wait).
 /// This is how sender steps land between the swap-out of a batch and its hand-over without any hook or thread.
+/// `cbs[w]` runs from INSIDE the callback of watcher `w`, at the moment it runs (once): sender steps between two
+/// callbacks, between the last callback and the hand-over, between the callbacks of an empty hand-off and the
+/// exit check — or, on the immediate path, nested in the `when_flushed` / `when_empty` call itself (where the
+/// Sender cannot be dropped: `ds` is skipped there).
 #[derive(Default, Clone)]
 struct Windows {
     calls: BTreeMap<usize, Vec<Op>>,
     waits: BTreeMap<usize, Vec<Op>>,
+    cbs: BTreeMap<u64, Vec<Op>>,
+}
+
+/// What a running callback needs to perform sender ops: the callbacks must be `Send + 'static`, so they cannot
+/// capture the (single-threaded) interpreter state; it lives here for the duration of a case.
+struct CbCtx {
+    core: Rc<RefCell<Core>>,
+    cbs: RefCell<BTreeMap<u64, Vec<Op>>>,
+    /// > 0 while a `when_flushed` / `when_empty` call is on the stack
+    in_sender_call: std::cell::Cell<usize>,
+}
+thread_local! {
+    static CB_CTX: RefCell<Option<Rc<CbCtx>>> = const { RefCell::new(None) };
+}
+fn cb_ctx() -> Option<Rc<CbCtx>> {
+    CB_CTX.with(|c| c.borrow().clone())
 }
 
 struct Case {
@@ -222,12 +242,13 @@ fn parse_case(line: &str) -> Option<Case> {
         if !ops.iter().all(|o| o.sender_side()) {
             return None;
         }
-        let map = match kind {
-            "c" => &mut win.calls,
-            "w" => &mut win.waits,
+        let dup = match kind {
+            "c" => win.calls.insert(idx, ops).is_some(),
+            "w" => win.waits.insert(idx, ops).is_some(),
+            "cb" => win.cbs.insert(idx as u64, ops).is_some(),
             _ => return None,
         };
-        if map.insert(idx, ops).is_some() {
+        if dup {
             return None;
         }
     }
@@ -350,6 +371,16 @@ impl Cb {
         self.ran = true;
         let ev = if self.flush { Ev::Fired(self.id) } else { Ev::FiredEmpty(self.id) };
         log(&self.sh, ev);
+        // sender ops scripted for inside this callback
+        if let Some(ctx) = cb_ctx() {
+            let ops = ctx.cbs.borrow_mut().remove(&self.id);
+            if let Some(ops) = ops {
+                for op in &ops {
+                    let tag = sender_op(&ctx.core, &self.sh, op);
+                    log(&self.sh, Ev::Win(tag));
+                }
+            }
+        }
         if self.id >= 5000 {
             panic!("scripted panic inside a callback");
         }
@@ -583,7 +614,26 @@ fn items(xs: &[u64]) -> String {
 /// Execute one sender-side op on the real `Sender`; returns its tag (`x` = no Sender). Everything the oracle needs
 /// goes to the log, in order.
 fn sender_op(core: &Rc<RefCell<Core>>, sh: &Shared, op: &Op) -> String {
+    let ctx = cb_ctx();
+    let nested = ctx.as_ref().map(|c| c.in_sender_call.get() > 0).unwrap_or(false);
+    struct Depth(Option<Rc<CbCtx>>);
+    impl Drop for Depth {
+        fn drop(&mut self) {
+            if let Some(c) = &self.0 {
+                c.in_sender_call.set(c.in_sender_call.get() - 1);
+            }
+        }
+    }
+    let enter = || {
+        if let Some(c) = &ctx {
+            c.in_sender_call.set(c.in_sender_call.get() + 1);
+        }
+        Depth(ctx.clone())
+    };
     if let Op::DropSender = op {
+        if nested {
+            return "x".into(); // inside a when_flushed / when_empty call: the Sender is borrowed
+        }
         let s = core.borrow_mut().sender.take();
         return match s {
             None => "x".into(),
@@ -623,12 +673,14 @@ fn sender_op(core: &Rc<RefCell<Core>>, sh: &Shared, op: &Op) -> String {
         Op::Flush(w) => {
             log(sh, Ev::RegFlush(*w));
             let cb = Cb { id: *w, flush: true, sh: sh.clone(), ran: false };
+            let _depth = enter();
             let _ = hcommon::catch(|| s.when_flushed(move || cb.run()));
             "f".into()
         }
         Op::Empty(w) => {
             log(sh, Ev::RegEmpty(*w));
             let cb = Cb { id: *w, flush: false, sh: sh.clone(), ran: false };
+            let _depth = enter();
             let _ = hcommon::catch(|| s.when_empty(move || cb.run()));
             "e".into()
         }
@@ -650,6 +702,13 @@ impl World {
         let (sender, receiver): (Sender<Vec<u64>>, Receiver<Vec<u64>>) = emit_batcher::bounded(cap);
         let metrics = sender.metric_source();
         let core = Rc::new(RefCell::new(Core { sender: Some(sender), metrics }));
+        CB_CTX.with(|c| {
+            *c.borrow_mut() = Some(Rc::new(CbCtx {
+                core: core.clone(),
+                cbs: RefCell::new(win.cbs.clone()),
+                in_sender_call: std::cell::Cell::new(0),
+            }))
+        });
         let sh: Shared = Arc::new(Mutex::new(Sh { sp, ..Default::default() }));
         let win = Rc::new(win);
         let fut = {
@@ -845,6 +904,12 @@ impl World {
     }
 }
 
+impl Drop for World {
+    fn drop(&mut self) {
+        CB_CTX.with(|c| *c.borrow_mut() = None);
+    }
+}
+
 fn run_batcher(line: &str) -> String {
     let Some(c) = parse_case(line) else {
         return "bad-case".into();
@@ -951,6 +1016,64 @@ fn gen_one(rng: &mut Rng, tier: Tier) -> String {
             }
         }
     }
+    // sender ops from inside callbacks (half of the schedules): decided per registered watcher, see below;
+    // the watchers registered inside windows get theirs now
+    let with_cbs = rng.chance(1, 2);
+    let mut next_cb_item = 8000u64;
+    let mut next_cb_w = 4000u64;
+    let mut gen_cb_ops = |rng: &mut Rng, cbs: &mut BTreeMap<u64, Vec<Op>>| -> Vec<Op> {
+        let mut out = Vec::new();
+        for _ in 0..rng.range(1, 3) {
+            out.push(match rng.below(24) {
+                0..=7 => {
+                    next_cb_item += 1;
+                    Op::Send(next_cb_item)
+                }
+                8..=11 => {
+                    next_cb_item += 1;
+                    Op::Try(next_cb_item)
+                }
+                12..=16 | 17..=20 => {
+                    next_cb_w += 1;
+                    let w = next_cb_w;
+                    // a nested payload for the watcher registered from inside the callback
+                    if rng.chance(1, 4) {
+                        next_cb_item += 1;
+                        let mut inner = vec![if rng.bool() { Op::Try(next_cb_item) } else { Op::Send(next_cb_item) }];
+                        if rng.chance(1, 3) {
+                            inner.push(Op::DropSender);
+                        }
+                        cbs.insert(w, inner);
+                    }
+                    if rng.below(9) < 5 {
+                        Op::Flush(w)
+                    } else {
+                        Op::Empty(w)
+                    }
+                }
+                _ => Op::DropSender,
+            });
+        }
+        out
+    };
+    if with_cbs {
+        let win_ws: Vec<u64> = win
+            .calls
+            .values()
+            .chain(win.waits.values())
+            .flatten()
+            .filter_map(|o| match o {
+                Op::Flush(w) | Op::Empty(w) => Some(*w),
+                _ => None,
+            })
+            .collect();
+        for w in win_ws {
+            if rng.chance(1, 3) {
+                let ops = gen_cb_ops(rng, &mut win.cbs);
+                win.cbs.insert(w, ops);
+            }
+        }
+    }
     let mut world = World::new(cap, sp.clone(), win.clone());
     let mut next_item = 1u64;
     let mut next_w = 100u64;
@@ -1043,6 +1166,20 @@ fn gen_one(rng: &mut Rng, tier: Tier) -> String {
                 }
             }
         };
+        // sender ops from inside the callback this op registers
+        if with_cbs {
+            if let Op::Flush(w) | Op::Empty(w) = &op {
+                if rng.chance(1, 3) && !win.cbs.contains_key(w) {
+                    let mut extra = BTreeMap::new();
+                    let cb_ops = gen_cb_ops(rng, &mut extra);
+                    extra.insert(*w, cb_ops);
+                    if let Some(ctx) = cb_ctx() {
+                        ctx.cbs.borrow_mut().extend(extra.clone());
+                    }
+                    win.cbs.extend(extra);
+                }
+            }
+        }
         // advance the real code; remember the argument of the last on_batch call
         let before = world.sh.lock().unwrap().log.len();
         debug_assert_eq!(before, 0);
@@ -1070,6 +1207,11 @@ fn gen_one(rng: &mut Rng, tier: Tier) -> String {
                         v.extend(o.iter().map(show_op));
                         Sexp::tagged(k, v)
                     })
+                    .chain(win.cbs.iter().map(|(w, o)| {
+                        let mut v = vec![Sexp::num(*w)];
+                        v.extend(o.iter().map(show_op));
+                        Sexp::tagged("cb", v)
+                    }))
                     .collect(),
             ),
             Sexp::tagged("ops", ops.iter().map(show_op).collect()),
